@@ -83,16 +83,17 @@ Conf(T, r, defs, p, exact) ==
          IF \E i \in 1..Len(T.xs) : Conf(T.xs[i], r, defs, p, exact) = "" THEN "" ELSE p \o ".union"
     [] T.k = "cls" ->
          LET d == defs[T.c] IN
-         IF d.flavour \in {"typeddict", "typeddict_nr"} THEN
+         IF d.flavour \in {"typeddict", "typeddict_nr", "typeddict_inh"} THEN
             IF r.k # "dict" THEN p \o ".typeddict.cls"
             ELSE FirstBad([i \in 1..Len(d.fields) |->
                    LET f == d.fields[i] v == DictVal(r, f[1]) IN
-                   IF v.k = "missing" THEN (IF d.flavour = "typeddict_nr" /\ f[3] THEN "" ELSE p \o ".typeddict.required")
+                   IF v.k = "missing" THEN (IF d.flavour # "typeddict" /\ f[3] THEN "" ELSE p \o ".typeddict.required")
                    ELSE Conf(f[2], v, defs, p \o ".field", exact)])
          ELSE IF r.k # "obj" \/ r.cls # d.module \o "." \o d.py THEN p \o ".class.cls"
          ELSE FirstBad([i \in 1..Len(d.fields) |->
                    LET f == d.fields[i] v == FieldVal(r, f[1]) IN
-                   IF v.k = "missing" THEN p \o ".class.field.missing"
+                   IF f[2].k = "classvar" THEN ""                 \* class-level: not part of the instance
+                   ELSE IF v.k = "missing" THEN p \o ".class.field.missing"
                    ELSE Conf(f[2], v, defs, p \o ".field", exact)])
     [] T.k \in Wrappers -> Conf(T.a, r, defs, p, exact)
     [] OTHER -> ""                                  \* any / object / bare generics: contents passed through
